@@ -132,6 +132,16 @@ def cases(tier):
         sp = base_spec(f"0.5*{canon}")
         src = render_plain(sp).replace(canon, call)
         out.append((f"pseudo_spacing:{call}", src, sp, None, "equal"))
+    # an unparenthesised sum as the argument: the expansion must bind as a whole
+    for f in ("shift", "diff", "roc", "mov_sum", "pct"):
+        call = f"{f}(y+z[-1], -2)"
+        sp = base_spec(f"0.5*{call}")
+        out.append((f"pseudo_sum_argument:{call}", render_plain(sp), sp, None, "equal"))
+    # shocks at a lag or lead (each occurrence stands for shock + anticipated twin at that date)
+    for expr, cid in (("a*x[-1] + 0.5*e[-1]", "lagged_shock"), ("a*x[-1] + 0.25*e[+1] - e[-2]", "led_and_lagged_shock")):
+        sp = base_spec(expr)
+        out.append((f"shock_shift:{cid}", render_plain(sp), sp, None, "equal"))
+        out.append((f"shock_shift:{cid}:curly", render_plain(sp, shift_style="{"), sp, None, "equal"))
     # forms the regex expansion cannot handle must be rejected, never evaluated to something else
     for call in ("diff(diff(y))", "diff(log(y+(z)))", "mov_sum(pct(y), -2)", "diff(y[-1], -1) + roc(shift(z))"):
         sp = base_spec(f"0.5*{call}")
